@@ -96,7 +96,8 @@ class ChunkIO(RuleBasedStateMachine):
         second=st.lists(st.sampled_from([0, 0, 1, 2, 3, 4, 5, 8, 16]),
                         min_size=9, max_size=9),
         keystyle=st.sampled_from(["s%d", "s%d", "%dmm", "level/%d",
-                                  "scale %d", "K%d.iso", "\u00b5m-%d"]))
+                                  "scale %d", "K%d.iso", "\u00b5m-%d",
+                                  "-lvl%d", "k:%d", "%d"]))
     @logged
     def setup(self, dtype, channels, nscales, sizes, chunks, encs, blocks,
               kind, bits, shard_enc, quality, plane, second=None,
